@@ -24,7 +24,7 @@ def seeded(U, rnd, quick):
     return jobs
 
 def check(run):
-    return refcheck.run_ref(run, "C12", ["maven"], (1050, 4000), seeded_fn=seeded,
+    return refcheck.run_ref(run, "C12", ["maven"], (1050, 8000), seeded_fn=seeded,
         rule="pairs of conventionally shaped members (MvInScope) within blocks of <=350 members of the TLC-generated universe + seeded conventional shapes; judged by MavenCV.tla where Maven 3.8.7 and 3.8.1-3.8.6 agree",
         assumptions=["MavenCV.tla transcribes ComparableVersion of Maven 3.8.7 (audited against maven-artifact-3.x.jar by `vcheck audit C12`, 0 disagreements on 20000 pairs)",
                      "pairs on which Maven 3.8.7 (MNG-7644) and earlier 3.8 releases disagree are not claimed"])
